@@ -87,6 +87,11 @@ package server
 //@ func (*Scheduler).processCompleted
 //@   assert-at call delete #1 : runner.llama == nil
 //@   assert-at call delete #1 : held(s.loadedMu)
+// C02 (drain: every runner that was started is shut down once nobody uses it): an expiry event is
+// put off (re-posted by the retry goroutine) only because somebody still holds a reference - the
+// finished event of that holder brings the next expiry. An idle runner is unloaded by THIS event.
+// (added after seeded change C02-seed3, which also put it off while `loading` was set)
+//@   assert-at call processCompleted$2 : runner.refCount > 0
 
 // C02: the caller of GetRunner is never blocked: the queue send sits in a select with
 // default, and the busy error goes to a fresh channel of capacity 1.
